@@ -1,6 +1,6 @@
 (* Property C19 -- statements only; proofs in Proofs/C19.v *)
 From Coq Require Import List String.
-From FV Require Import Base.Re Model.ForecastM Proofs.C19.
+From FV Require Import Base.Re Base.Grammar Model.ForecastM Model.SliceM Proofs.C19 Proofs.C19Slice.
 Import ListNotations.
 Open Scope string_scope.
 
@@ -21,3 +21,24 @@ Example C19_nonvacuous :
   (nodup string_dec (fst (forecast msg macc fc ["d"; "c"; "c"])), snd (forecast msg macc fc ["d"; "c"; "c"])) = (["g"; "i"], false)
   /\ forecast msg macc fc ["d"; "c"; "c"; "g"] = ([], true).
 Proof. split; vm_compute; reflexivity. Qed.
+
+(* slicing to a subset of parties (the model of slice_parties that the correspondence check runs against the real one): every message
+   left in the sliced protocol is sent by a kept party, and everything that is removed consists of messages of other parties only.
+   Together with C19_forecast_exact (which holds for every expression, hence for the sliced one): no message of a party that was
+   sliced away is ever offered. *)
+Theorem C19_sliced_keeps_only_kept_parties : forall keep rules fuel r m,
+  islice fuel (visible keep) rules r = Some (Some m) -> Forall (fun a => visible keep a = true) (atoms msg m).
+Proof. intros keep rules. exact (islice_visible (visible keep) rules). Qed.
+Print Assumptions C19_sliced_keeps_only_kept_parties.
+
+Theorem C19_sliced_removes_only_other_parties : forall keep rules fuel r full,
+  islice fuel (visible keep) rules r = Some None -> inline fuel rules r = Some full ->
+  Forall (fun a => visible keep a = false) (atoms msg full).
+Proof. intros keep rules. exact (islice_removed_invisible (visible keep) rules). Qed.
+Print Assumptions C19_sliced_removes_only_other_parties.
+
+(* non-vacuity: <start> ::= <A:B:x> (<C:A:y> | <C:B:z>) <t> ; <t> ::= <B:A:u>?   sliced to {A, B} *)
+Example C19_slice_nonvacuous :
+  islice 9 (visible ["A"; "B"]) [("<start>", Cat [Ref "A:B:<x>"; Alt [Ref "C:A:<y>"; Ref "C:B:<z>"]; Ref "<t>"]); ("<t>", Rep (Ref "B:A:<u>") 0 (Some 1))] (Ref "<start>")
+  = Some (Some (RCat _ (RAtom _ "A:B:<x>") (RCat _ (RRep _ (RAtom _ "B:A:<u>") 0 (Some 1)) (REps _)))).
+Proof. vm_compute. reflexivity. Qed.
